@@ -65,6 +65,8 @@ FAULTS = [
     ("bad-escape", "@print '\\z'", True),
     ("hetero-set", "@print {1, true}", True),
     ("undef-attribute", "@assert {1}.nothing", True),
+    ("assert-multiline", "@assert 'x\ny' == 'xy'", True),
+    ("operand-multiline", "@print 'p\nq\nr' + 1", True),
     ("byte-scalar", "byte b", False),
     ("utf8-fixed", "utf8[4] s", False),
 ]
@@ -252,7 +254,7 @@ def make_print(location: str, crlf: bool, final_newline: bool, pre: typing.List[
 def make_print_concrete(location: str, crlf: bool, final_newline: bool, max_pre: int):
     """All-concrete twin of make_print run natively: more surroundings, string/set/bool values."""
     nk = len(SURROUND)
-    values = [("true", "true"), ("'x' + \"y\"", "'xy'"), ("{1, 2/4}.count", "2"), ("3/6", "1/2"), ("", "")]
+    values = [("'two\nlines'", "'two\\nlines'"), ("true", "true"), ("'x' + \"y\"", "'xy'"), ("{1, 2/4}.count", "2"), ("3/6", "1/2"), ("", "")]
 
     def concrete(pre_k: typing.List[int], v: int) -> typing.Any:
         pre = _surround_lines(pre_k, 1)
@@ -263,7 +265,7 @@ def make_print_concrete(location: str, crlf: bool, final_newline: bool, max_pre:
         for k in pre_k:
             bits += {2: 8, 4: 16, 7: 3}.get(k, 0)
         n1 = _lines_before(pre, len(pre))
-        want = [(n1 + 1, shown), (n1 + 3, "{%d}" % bits)]
+        want = [(n1 + 1, shown), (n1 + 3 + expr.count("\n"), "{%d}" % bits)]
         return _check_print(location, body, want, crlf, final_newline)
 
     def h(n_pre: int, v: int, k0: int, k1: int, k2: int) -> typing.Any:
